@@ -17,10 +17,30 @@ pub fn reward_update_op() -> Op {
     raw(DISPATCHER, REWARD, &basset::reward::ExecuteMsg::UpdateGlobalIndex {})
 }
 
-pub fn steer(r: &mut Rng, s: &Snap, cfg: &Cfg, _g: &mut GenState, _w: &World) -> Option<Op> {
+pub fn steer(r: &mut Rng, s: &Snap, cfg: &Cfg, g: &mut GenState, _w: &World) -> Option<Op> {
+    if let Some(op) = g.script.pop_front() {
+        return Some(op);
+    }
     let us = users(cfg);
     let holders: Vec<(String, u128)> = us.iter().map(|u| (u.clone(), *s.bsei.balances.get(u).unwrap_or(&0))).filter(|x| x.1 > 0).collect();
     let supply = s.bsei.supply;
+    // state-targeted move: drain the whole supply, deliver rewards while nobody holds bSei, update, re-mint
+    let all: Vec<(String, u128)> = s.bsei.balances.iter().filter(|(a, b)| **b > 0 && a.as_str() != HUB).map(|(a, b)| (a.clone(), *b)).collect();
+    if supply > 0 && all.len() <= 5 && r.chance(1, 50) {
+        let mut total = *s.bsei.balances.get(HUB).unwrap_or(&0);
+        for (a, b) in all.iter() {
+            g.script.push_back(Op::Transfer { tok: Tok::B, from: a.clone(), to: HUB.into(), amount: *b });
+            total += *b;
+        }
+        g.script.push_back(Op::Burn { tok: Tok::B, user: HUB.into(), amount: total });
+        for _ in 0..r.range(1, 2) {
+            g.script.push_back(Op::Donate { to: REWARD.into(), denom: KUSD.into(), amount: r.amount(E18 / 1000) });
+            g.script.push_back(reward_update_op());
+        }
+        g.script.push_back(Op::Mint { tok: Tok::B, sender: HUB.into(), to: r.pick(&us).clone(), amount: r.amount(E18 / 10) });
+        g.script.push_back(reward_update_op());
+        return g.script.pop_front();
+    }
     let w = [14u32, 14, 3, 6, 5, 3, 4, 4, 14, 14, 14, 2];
     let k = if supply == 0 && r.chance(3, 4) { 0 } else { r.pick_weighted(&w) };
     let amt = |r: &mut Rng, max: u128| -> u128 {
